@@ -53,7 +53,7 @@ func famSuccess(tw *traceWriter, r *rand.Rand, n int) {
 	for i := 0; i < n; i++ {
 		g := genCfg{maxDepth: 3, noPT: true, easy: true}
 		sch := genStruct(r, g, 0)
-		c := &Case{ID: fmt.Sprintf("s%d", i), Mode: "parse", Fe: "map", Schema: sch}
+		c := &Case{ID: fmt.Sprintf("s%d", i), Mode: "parse", Fe: "map", Schema: sch, Pre: i % 2}
 		c.Input = genParseInput(r, sch, "map")
 		if c.Input.T != "map" {
 			c.Input = mapIn()
@@ -133,7 +133,43 @@ func famPairs(tw *traceWriter, r *rand.Rand, n int) {
 	}
 }
 
+// C13, second family: only the ROOT struct's own tests fail, every primitive carries a PostTransform that
+// rewrites its destination. All field transforms run before the root's tests in both modes, so the
+// resulting values must agree whatever the visit order.
+func famPairsPT(tw *traceWriter, r *rand.Rand, n int) {
+	for i := 0; i < n; i++ {
+		g := genCfg{maxDepth: 2, easy: true, noCatch: r.Intn(2) == 0, okPT: true, noCustom: true, types: []string{"int", "str", "float", "time"}}
+		sch := genStruct(r, g, 0)
+		var mark func(n *Node, depth int)
+		mark = func(n *Node, depth int) {
+			if n.K == "prim" && n.Catch == None {
+				n.Pts = []string{"mut"}
+			}
+			if n.K == "struct" && depth > 0 {
+				n.Tests = []Test{}
+			}
+			if n.K == "slice" {
+				n.Tests = []Test{}
+			}
+			for _, k := range n.Kids {
+				mark(k.Node, depth+1)
+			}
+		}
+		mark(sch, 0)
+		sch.Tests = []Test{{Kind: "const", N: r.Intn(2), Code: "st1", User: true}}
+		v := genFull(r, sch)
+		id := fmt.Sprintf("pairpt%d", i)
+		cv := &Case{ID: id + "v", Mode: "validate", Fe: "map", Schema: sch, Input: v}
+		cp := &Case{ID: id + "p", Mode: "parse", Fe: "map", Schema: sch, Input: toMapInput(sch, v)}
+		tw.grp = id
+		tw.emitCase(cv, "validate13", false)
+		tw.emitCase(cp, "parse13", false)
+		tw.grp = ""
+	}
+}
+
 func init() {
+	families["pairspt"] = famPairsPT
 	families["tags"] = famTags
 	families["callbacks"] = famCallbacks
 	families["success"] = famSuccess
